@@ -22,6 +22,9 @@ Next ==
     \/ \E i \in Idx, x \in Vals : Set(Limbs(i), x, i < Len(seq))
     \/ \E i \in Idx, x \in Vals : Set(Limbs(i), x, FALSE)
     \/ Finish(TRUE) \/ Finish(FALSE)
+    \/ Clear(0)
+    \/ \E out \in SeqsUpTo(MaxLen) : Resize(Len(out), out)
+    \/ \E xs \in SeqsUpTo(MaxLen) : Swap(xs, xs)
 
 Spec == PSInit /\ [][Next]_pvars
 
@@ -52,6 +55,21 @@ NothingWithoutContainer ==
     ~built => /\ ~ENABLED ReadBack(<<>>, 0)
               /\ ~ENABLED Get(Limbs(0), None, "none", TRUE)
               /\ ~ENABLED LenIs(0)
+(* back / is_empty / content-preserving calls accept exactly the content *)
+BackExact ==
+    built => \A r \in OptV, how \in Hows, pk \in BOOLEAN :
+        ENABLED Back(r, how, pk) <=>
+            IF Len(seq) > 0 THEN r = Some(seq[Len(seq)]) /\ how = "value"
+            ELSE r = None /\ how \in Refusals /\ (how = "panic" => pk)
+MaintainExact ==
+    built => /\ \A out \in SeqsUpTo(MaxLen) : ENABLED Maintain(out) <=> out = seq
+             /\ \A n \in 0..MaxLen, b \in BOOLEAN : ENABLED LenEmpty(n, b) <=> (n = Len(seq) /\ b = (seq = <<>>))
+             /\ \A n \in 0..MaxLen : ENABLED Clear(n) <=> n = 0
+(* resize accepts exactly the read-backs that keep the common prefix *)
+ResizeExact ==
+    built => \A out \in SeqsUpTo(MaxLen), n \in 0..MaxLen :
+        ENABLED Resize(n, out) <=>
+            (Len(out) = n /\ \A i \in 1..MaxLen : (i <= n /\ i <= Len(seq)) => out[i] = seq[i])
 (* get_block: whole blocks and the partial last block *)
 BlockLaw ==
     built => \A bs \in 1..2, b \in 0..MaxLen :
@@ -71,6 +89,8 @@ SetChangesOne == [][\A i \in Idx, x \in Vals : Set(Limbs(i), x, TRUE) =>
                       /\ ReadOf(seq', Limbs(i)) = Some(x)
                       /\ \A j \in Idx \ {i} : ReadOf(seq', Limbs(j)) = Read(Limbs(j))]_pvars
 RefusalKeeps == [][\A i \in Idx, x \in Vals : (Push(x, FALSE) \/ Set(Limbs(i), x, FALSE)) => UNCHANGED pvars]_pvars
+ClearEmpties == [][Clear(0) => seq' = <<>> /\ built']_pvars
+SwapTakesOther == [][\A xs \in SeqsUpTo(MaxLen) : Swap(xs, xs) => seq' = xs /\ built']_pvars
 BuildIsInput == [][\A xs \in SeqsUpTo(MaxLen) : Build(xs, TRUE) =>
                       \A i \in Idx : ReadOf(seq', Limbs(i)) = (IF i < Len(xs) THEN Some(xs[i + 1]) ELSE None)]_pvars
 =============================================================================
